@@ -26,12 +26,35 @@ def _read(rel):
     return open(os.path.join(REPO, rel), encoding="utf-8").read()
 
 
-def _one(src, where, options):
+PROBLEMS = []      # lenient mode: what no longer has the expected shape (the switch keeps its repaired default)
+LENIENT = False
+
+
+def _problem(msg, default=None):
+    if not LENIENT:
+        raise Exception(msg)
+    PROBLEMS.append(msg)
+    return default
+
+
+def _one(src, where, options, default=None):
     """exactly one of the (regex -> value) options must occur"""
     hits = [(pat, val) for pat, val in options if re.search(pat, src, re.S)]
     if len(hits) != 1:
-        raise Exception("%s: expected exactly one of %s, found %d" % (where, [p for p, _ in options], len(hits)))
+        return _problem("%s: expected exactly one of %s, found %d" % (where, [p for p, _ in options], len(hits)), default)
     return hits[0][1]
+
+
+def switches_lenient():
+    """the switches with the repaired default wherever the source no longer has a recognised shape, plus the list of
+    problems: lets the check keep searching the implementation for a concrete failing input when the translator breaks"""
+    global LENIENT
+    LENIENT = True
+    del PROBLEMS[:]
+    try:
+        return switches(), list(PROBLEMS)
+    finally:
+        LENIENT = False
 
 
 def switches():
@@ -39,39 +62,41 @@ def switches():
     m = re.search(r"let inner = if (.*?)\{\s*account_set_defs\[0\]\.clone\(\)\s*\} else \{\s*quote!\s*\{(.*?)idl_definition\.add_account_set",
                   idl, re.S)
     if not m:
-        raise Exception("struct_impl/idl.rs: the `let inner = if .. { account_set_defs[0].clone() } else { quote! {..} }` shape changed")
-    cond, body = m.group(1), m.group(2)
+        _problem("struct_impl/idl.rs: the `let inner = if .. { account_set_defs[0].clone() } else { quote! {..} }` shape changed")
+    cond, body = (m.group(1), m.group(2)) if m else ("", "")
     one_pass = _one(cond, "struct_impl/idl.rs passthrough condition",
-                    [(r"account_set_defs\.len\(\)\s*==\s*1", True), (r"single_set_field\.is_some\(\)", False)])
+                    [(r"account_set_defs\.len\(\)\s*==\s*1", True), (r"single_set_field\.is_some\(\)", False)], False)
     key_full = _one(body, "struct_impl/idl.rs `let source = ..`",
                     [(r"let source = [^;]*item_source::<Self>\(\)\s*;", False),
-                     (r"let source = [^;]*type_name::<Self>\(\)[^;]*;", True)])
+                     (r"let source = [^;]*type_name::<Self>\(\)[^;]*;", True)], True)
     opt = _read("star_frame/src/account_set/impls/option.rs")
     m = re.search(r"mod idl_impl \{(.*)$", opt, re.S)
     if not m or "IdlAccountSetDef::Or(vec![" not in m.group(1) or "inner.optional = true" not in m.group(1):
-        raise Exception("impls/option.rs: the idl_impl of Option<A> changed shape")
-    orbody = m.group(1).split("IdlAccountSetDef::Or(vec![")[1].split("]))")[0]
+        _problem("impls/option.rs: the idl_impl of Option<A> changed shape")
+        orbody = ""
+    else:
+        orbody = m.group(1).split("IdlAccountSetDef::Or(vec![")[1].split("]))")[0]
     none_placeholder = _one(orbody, "impls/option.rs `Or(vec![set, ..])`",
                             [(r"IdlAccountSetDef::empty_struct\(\)", False),
-                             (r"address:\s*Some\(idl_definition\.address\)", True)])
+                             (r"address:\s*Some\(idl_definition\.address\)", True)], True)
     mu = _read("star_frame/src/account_set/modifiers/mutable.rs")
     sg = _read("star_frame/src/account_set/modifiers/signer.rs")
     mc = _one(mu, "modifiers/mutable.rs meta", [(r"SingleSetMeta \{ writable: MUT, \.\.T::meta\(\) \}", True),
-                                                 (r"SingleSetMeta \{ writable: MUT \|\| T::meta\(\)\.writable, \.\.T::meta\(\) \}", False)])
+                                                 (r"SingleSetMeta \{ writable: MUT \|\| T::meta\(\)\.writable, \.\.T::meta\(\) \}", False)], False)
     sc = _one(sg, "modifiers/signer.rs meta", [(r"SingleSetMeta \{ signer: SIGNER, \.\.T::meta\(\) \}", True),
-                                                (r"SingleSetMeta \{ signer: SIGNER \|\| T::meta\(\)\.signer, \.\.T::meta\(\) \}", False)])
+                                                (r"SingleSetMeta \{ signer: SIGNER \|\| T::meta\(\)\.signer, \.\.T::meta\(\) \}", False)], False)
     if mc != sc:
-        raise Exception("MaybeMut and MaybeSigner build their client meta differently (one clears the inner flag, one keeps it)")
+        _problem("MaybeMut and MaybeSigner build their client meta differently (one clears the inner flag, one keeps it)")
     for src, name in ((mu, "mutable.rs"), (sg, "signer.rs")):
         if not re.search(r"if (MUT|SIGNER) \{\s*set\.single\(\)\?\.(writable|signer) = true;\s*\}", src):
-            raise Exception("modifiers/%s: the idl_impl no longer sets the flag only when the const is true" % name)
+            _problem("modifiers/%s: the idl_impl no longer sets the flag only when the const is true" % name)
     cod = _read("star_frame_idl/src/codama.rs")
     m = re.search(r"fn discriminant_to_usize\(discriminant: &IdlDiscriminant\) -> Result<usize> \{(.*?)\n\}", cod, re.S)
     if not m or "usize::from_le_bytes(bytes)" not in m.group(1):
-        raise Exception("codama.rs: discriminant_to_usize changed shape")
-    bits = _one(m.group(1), "codama.rs discriminant_to_usize guard",
+        _problem("codama.rs: discriminant_to_usize changed shape")
+    bits = _one(m.group(1) if m else "", "codama.rs discriminant_to_usize guard",
                 [(r"if discriminant\.len\(\) \* 8 > std::mem::size_of::<usize>\(\)", True),
-                 (r"if discriminant\.len\(\) > std::mem::size_of::<usize>\(\)", False)])
+                 (r"if discriminant\.len\(\) > std::mem::size_of::<usize>\(\)", False)], False)
     return {"C17_KEY_FULL": key_full, "C17_ONE_PASSTHROUGH": one_pass, "C17_NONE_PLACEHOLDER": none_placeholder,
             "C17_FALSE_CLEARS": mc, "C17_GUARD_BITS": bits}
 
